@@ -103,8 +103,34 @@ def _width_task(task):
             else:
                 acc.seen((n, depth, next(iter(cvals))))
         acc.n(traces=1)
+        if n > 255:
+            _wide_redraws(n, start, acc)
     acc.sample({"call": "unbiased_randrange(%d, %d, f)" % (starts[-1], starts[-1] + n), "tree_depth": depth})
     return acc
+
+
+def _wide_redraws(n, start, acc):
+    """draws of 2+ bytes: the complete second level is 65536^2; explore a structured slice of it instead - a band of rejected
+    first answers x a menu of second answers (x one third answer after two rejections)"""
+    U = T.lib().util
+    k = max(1, (n.bit_length() + 7) // 8)
+    mask = (1 << n.bit_length()) - 1
+    enc = lambda v: (v % (1 << 8 * k)).to_bytes(k, "big")
+    rejected = [v for v in (n, n + 1, n + 2, (n + mask) // 2, mask - 1, mask, mask + 1 + n, (1 << 8 * k) - 1) if (v & mask) >= n]
+    seconds = [0, 1, 255, 256, n - 1, n, mask, (1 << 8 * k) - 1, n // 2, 0x0101 % (1 << 8 * k)]
+    for r1 in rejected:
+        for s2 in seconds:
+            answers = [enc(r1), enc(s2), enc(3 % n), enc(4 % n)]
+            want, used = ref_sample(n, start, answers)
+            sc = T.Script(answers)
+            got = T.observe(U.unbiased_randrange, start, start + n, sc)
+            acc.n(states=1, transitions=1)
+            if got != ("ok", want) or sc.calls != [k] * used:
+                acc.violation("C11/randrange/redraw-differs-from-rejection-sampling",
+                              {"what": "after a rejected first draw the value or the bytes requested differ from fresh mask-compare-retry sampling",
+                               "replay": {"fn": "randrange", "start": start, "stop": start + n, "answers": answers}, "expected": [want, [k] * used],
+                               "observed": [got, sc.calls]})
+    acc.seen((n, "wide-redraw", len(rejected)))
 
 
 def _menu(n):
@@ -295,6 +321,8 @@ def replay(rec):
     if fn == "randrange":
         sc = T.Script(list(r["answers"]))
         got = T.observe(L.util.unbiased_randrange, r["start"], r["stop"], sc)
+        if isinstance(rec.get("expected"), list):
+            return [got, sc.calls]
         return got[1] if got[0] == "ok" else ("another draw" if got[1] == "EntropyExhausted" else got)
     if fn == "randrange-count":
         return "re-run the check: counting oracle over the complete first draw"
